@@ -5,7 +5,7 @@ package bexpr
 // is free (true / false / error, through several mechanisms). The composite's
 // outcome must equal the 3x3 table applied to the leaves evaluated on their own.
 
-const nGadgets = 7
+const nGadgets = 8
 
 // gadget returns an expression over keys prefixed by p and fills d so that the
 // expression's outcome is left to the solver.
@@ -54,6 +54,23 @@ func gadget(g int, p string, d map[string]interface{}) string {
 			return "3 in " + p + "i"
 		}
 		return "x in " + p + "i"
+	case 6: // a negated operator on a resolved value: free on a string, an error on an int
+		if vBool() {
+			d[p+"n"] = vString(1)
+		} else {
+			d[p+"n"] = vInt8()
+		}
+		switch vChoose(5) {
+		case 0:
+			return p + "n != 1"
+		case 1:
+			return p + "n != abc"
+		case 2:
+			return p + "n is not empty"
+		case 3:
+			return "\"7\" not in " + p + "n"
+		}
+		return p + "n not matches \"7\""
 	default: // is empty on string (true/false) or on int (error)
 		if vBool() {
 			d[p+"e"] = vString(1)
